@@ -56,6 +56,7 @@ static MCase decode(Src &s) {
         un.lead = u > 0 ? wsp(s, 2) : (s.prob(1, 6) ? wsp(s, 2) : "");
         int np = un.matched >= 0 ? c.nReaders[(size_t) un.matched] : 0;
         for (int i = 0; i < np; i++) { int v = s.irange(-999, 999); un.ints.push_back(v); un.params += (i ? "," : " ") + wsp(s, 1) + std::to_string(v) + (i + 1 < np ? wsp(s, 1) : ""); }
+        if (np == 0 && s.prob(1, 4)) un.params = wsp(s, 2);      // header followed by white space only
         prevEff = un.eff; prevCommon = un.eff[0] == '*'; prevMatched = un.matched;
         c.units.push_back(un);
     }
